@@ -491,6 +491,7 @@ def _expand(chunk):
         ex = Explorer(sc, part)
         try:
             st = ex.reset()
+            part["transitions"] += 1          # the reset is an executed operation of every replayed history
             d, td = sc.d_par, sc.t_par
             ex.hist = ()
             if not hist:
